@@ -6,7 +6,7 @@ import os, glob
 import vlib, proglib
 import C12_tmap, C12_file
 
-PROP_FILES = sorted(set(list(C12_tmap.PROP_FILES) + [os.path.basename(f) for f in glob.glob(os.path.join(vlib.COQ, "Properties_C12_*.v"))] + ["Properties_gen.v", "Properties_refine.v", "Properties_compose.v"]))
+PROP_FILES = sorted(set(list(C12_tmap.PROP_FILES) + [os.path.basename(f) for f in glob.glob(os.path.join(vlib.COQ, "Properties_C12_*.v"))] + ["Properties_gen.v", "Properties_refine.v", "Properties_compose.v", "Properties_float.v"]))
 
 
 def run(ctx):
